@@ -22,6 +22,7 @@ RULE = (
     'after reduce() (which exercises R(a)R(b)=R(a+b), R(a)HWP=HWP R(-a), pol HWP = pol), factories == the '
     'corresponding explicit products before and after reduce(). Tolerance (8 n_ops + 4 sum|angles|) eps |x|. '
     'non-trivial = a non-I kind with a non-zero angle that is not a multiple of pi/4, or a chain with >= 1 HWP and >= 1 rotation.'
+    ' Also: pairs of rotations that almost cancel (angles of 2000-6000 rad differing by 4e-6..8e-6 relative); after every factory call a second operator is built from the caller\'s same angle array, which must be unmodified.'
 )
 ASSUMPTIONS = [
     'angles have the dtype of the Stokes components or narrower; the reference uses the angle values as rounded to that dtype',
